@@ -219,7 +219,9 @@ impl LibCase {
                         }
                         seen.push(e);
                     }
-                    let failed = evs.iter().filter(|ev| !ev.ok).count();
+                    // EINTR is transient (see NewCase): it may be retried or reported
+                    let failed = evs.iter().filter(|ev| !ev.ok && ev.errno != 4).count();
+                    let interrupted = evs.iter().any(|ev| !ev.ok && ev.errno == 4);
                     let errs = res.iter().filter(|r| !r.ok).count();
                     if h.end == "exit" && failed > 0 && errs == 0 {
                         rep.violate(
@@ -229,7 +231,7 @@ impl LibCase {
                             format!("[{eng} lib] {label}: {failed} entropy request(s) of task {t} failed, yet all of its {} generations returned a phrase", res.len()),
                         );
                     }
-                    if h.end == "exit" && failed == 0 && errs > 0 {
+                    if h.end == "exit" && failed == 0 && !interrupted && errs > 0 {
                         rep.violate(
                             "C12",
                             "spurious-error",
